@@ -158,7 +158,14 @@ def _run(mod, pid, tier, t0):
     # 4. correspondence
     corrs = []
     if not ok_driver:
-        ob("lean:driver-build", False, "\n".join([l for l in out_drv.splitlines() if "error" in l][:10]) or out_drv[-400:])
+        errs = [l for l in out_drv.splitlines() if "error" in l]
+        # the driver links every property's handler; only a failure inside THIS property's handler or the models /
+        # generated files it imports is this property's broken obligation — anything else is an infrastructure problem
+        mine = common.import_closure([f"TempestVerif.Drv.{pid}"])
+        rel = {os.path.relpath(f, common.LEAN) for f in mine.values()}
+        if not any(any(r in l for r in rel) for l in errs):
+            raise common.LeanError("model driver does not build, in a file outside this property's closure:\n" + "\n".join(errs[:10]))
+        ob("lean:driver-build", False, "\n".join(errs[:10]) or out_drv[-400:])
     else:
         try:
             corrs = mod.correspond(tier)
